@@ -383,6 +383,15 @@ def _reject_pseudo_header_fields(headers, hdr_validation_flags):
     )
 
 
+def _describe_header_names(header_names):
+    """
+    Renders a set of header names for an error message. The names are sorted,
+    so that the message does not depend on the iteration order of the set
+    (which changes with the hash seed of the process).
+    """
+    return '{%s}' % ', '.join(sorted(repr(name) for name in header_names))
+
+
 def _check_pseudo_header_field_acceptability(pseudo_headers,
                                              method,
                                              hdr_validation_flags):
@@ -393,7 +402,8 @@ def _check_pseudo_header_field_acceptability(pseudo_headers,
     # Pseudo-header fields MUST NOT appear in trailers - RFC 7540 § 8.1.2.1
     if hdr_validation_flags.is_trailer and pseudo_headers:
         raise ProtocolError(
-            "Received pseudo-header in trailer %s" % pseudo_headers
+            "Received pseudo-header in trailer %s" %
+            _describe_header_names(pseudo_headers)
         )
 
     # If ':status' pseudo-header is not there in a response header, reject it.
@@ -408,7 +418,7 @@ def _check_pseudo_header_field_acceptability(pseudo_headers,
         if invalid_response_headers:
             raise ProtocolError(
                 "Encountered request-only headers %s" %
-                invalid_response_headers
+                _describe_header_names(invalid_response_headers)
             )
     elif (not hdr_validation_flags.is_response_header and
           not hdr_validation_flags.is_trailer):
@@ -421,14 +431,14 @@ def _check_pseudo_header_field_acceptability(pseudo_headers,
         if invalid_request_headers:
             raise ProtocolError(
                 "Encountered response-only headers %s" %
-                invalid_request_headers
+                _describe_header_names(invalid_request_headers)
             )
         if method != b'CONNECT':
             invalid_headers = pseudo_headers & _CONNECT_REQUEST_ONLY_HEADERS
             if invalid_headers:
                 raise ProtocolError(
                     "Encountered connect-request-only headers %s" %
-                    invalid_headers
+                    _describe_header_names(invalid_headers)
                 )
 
 
